@@ -139,6 +139,69 @@ pub fn handle(op: &str, a: &[&str]) -> Option<String> {
                 u.sample(r)
             })
         }
+        // api-coverage: `impl SampleUniform for BigUint / BigInt` (`type Sampler = UniformBig*`), reached through
+        // rand's generic front ends: `Rng::gen_range(lo..hi)` (→ `Sampler::sample_single`), `gen_range(lo..=hi)`
+        // (→ the provided `sample_single_inclusive` = `new_inclusive(..).sample(..)`), and
+        // `Uniform::new / new_inclusive / from(range)` (→ `Sampler::new / new_inclusive`, then `sample`).
+        // `gen_range` itself asserts a non-empty range (rand's own message), so empty ranges are not requests here.
+        ("gen_range_u", [lo, hi, incl, t]) => {
+            let (lo, hi) = (parse_u(lo)?, parse_u(hi)?);
+            let incl: u32 = incl.parse().ok()?;
+            if (incl == 0 && lo >= hi) || (incl != 0 && lo > hi) {
+                return None;
+            }
+            run(t, su, |r| {
+                use rand::Rng;
+                if incl == 0 {
+                    r.gen_range(lo.clone()..hi.clone())
+                } else {
+                    r.gen_range(lo.clone()..=hi.clone())
+                }
+            })
+        }
+        ("gen_range_i", [lo, hi, incl, t]) => {
+            let (lo, hi) = (parse_i(lo)?, parse_i(hi)?);
+            let incl: u32 = incl.parse().ok()?;
+            if (incl == 0 && lo >= hi) || (incl != 0 && lo > hi) {
+                return None;
+            }
+            run(t, si, |r| {
+                use rand::Rng;
+                if incl == 0 {
+                    r.gen_range(lo.clone()..hi.clone())
+                } else {
+                    r.gen_range(lo.clone()..=hi.clone())
+                }
+            })
+        }
+        ("dist_uniform_u", [lo, hi, incl, t]) => {
+            let (lo, hi) = (parse_u(lo)?, parse_u(hi)?);
+            let incl: u32 = incl.parse().ok()?;
+            run(t, su, |r| {
+                use rand::distributions::Uniform;
+                let d: Uniform<BigUint> = match incl {
+                    0 => Uniform::new(&lo, &hi),
+                    1 => Uniform::new_inclusive(&lo, &hi),
+                    2 => Uniform::from(lo.clone()..hi.clone()),
+                    _ => Uniform::from(lo.clone()..=hi.clone()),
+                };
+                d.sample(r)
+            })
+        }
+        ("dist_uniform_i", [lo, hi, incl, t]) => {
+            let (lo, hi) = (parse_i(lo)?, parse_i(hi)?);
+            let incl: u32 = incl.parse().ok()?;
+            run(t, si, |r| {
+                use rand::distributions::Uniform;
+                let d: Uniform<BigInt> = match incl {
+                    0 => Uniform::new(&lo, &hi),
+                    1 => Uniform::new_inclusive(&lo, &hi),
+                    2 => Uniform::from(lo.clone()..hi.clone()),
+                    _ => Uniform::from(lo.clone()..=hi.clone()),
+                };
+                d.sample(r)
+            })
+        }
         _ => None,
     }
 }
